@@ -24,6 +24,9 @@ type c16Case struct {
 
 var sgr = regexp.MustCompile("\x1b\\[[0-9;]*m")
 
+var maprGlobal *mapr.GlobalGroupSet
+var maprQuery *mapr.Query
+
 func c16Feed(cs c16Case, colors bool) string {
 	config.Client.TermColorsEnable = colors
 	vrt.Out().Buf.Reset()
@@ -33,12 +36,18 @@ func c16Feed(cs c16Case, colors bool) string {
 		h = chandlers.NewClientHandler("srv1")
 	case "health":
 		h = chandlers.NewHealthHandler("srv1")
-	case "mapr":
-		q, err := mapr.NewQuery("select count(x),sum(y) group by k")
+	case "mapr", "mapr-orderby-field", "mapr-limit":
+		q, err := mapr.NewQuery(map[string]string{
+			"mapr":               "select count(x),sum(y) group by k",
+			"mapr-orderby-field": "select k,s,count(x) group by k order by s",
+			"mapr-limit":         "select k,last(s),max(y),min(y),avg(y),len(s) group by k rorder by last(s) limit 1",
+		}[cs.Handler])
 		if err != nil {
 			panic(err)
 		}
-		h = chandlers.NewMaprHandler("srv1", q, mapr.NewGlobalGroupSet())
+		maprGlobal = mapr.NewGlobalGroupSet()
+		maprQuery = q
+		h = chandlers.NewMaprHandler("srv1", q, maprGlobal)
 	}
 	b := []byte(cs.Stream)
 	if cs.Chunk > 0 && cs.Chunk < len(b) {
@@ -50,6 +59,16 @@ func c16Feed(cs c16Case, colors bool) string {
 	// let spawned goroutines (ack sender) run
 	vrt.Sleep("settle", 6*time.Second)
 	h.Shutdown()
+	if maprGlobal != nil {
+		// what the client's reporter does with whatever the messages left in the result set; an error is fine, a
+		// crash is not (the real client turns an error of the final report into a fatal panic only for I/O errors)
+		if table, _, err := maprGlobal.Result(maprQuery, 10); err != nil {
+			vrt.Failf("report", "the result report fails after these messages: %v", err)
+		} else {
+			vrt.Out().Buf.WriteString(table)
+		}
+		maprGlobal = nil
+	}
 	return vrt.Out().Buf.String()
 }
 
@@ -274,14 +293,17 @@ func c16Cases(thorough bool) (out []c16Case) {
 		"REMOTE|h|100|1|f|text", "REMOTE|h| 42|1|f|WARN x", "REMOTE|h|100|1|f|", "REMOTE|h|100|1|f", "REMOTE|h|100|1", "REMOTE|h", "REMOTE",
 		"REMOTEX|a|b|c|d|e|f|g", "SERVER|h|ERROR|boom", "SERVER|h", "SERVER", "CLIENT|h|FATAL|x", "CLIENT|h", "CLIENT",
 		"AGGREGATE|h|k∥1∥count(x)≔1∥sum(y)≔2∥", "AGGREGATE|h|k∥x∥count(x)≔1∥", "AGGREGATE|h|k∥1", "AGGREGATE|h", "AGGREGATE", "A", "",
-		"AGGREGATE|h|k∥1∥count(x)≔notanumber∥sum(y)≔∥", "AGGREGATE|h|∥∥∥∥", ".syn close connection", ".", ".unknown",
+		"AGGREGATE|h|k∥1∥count(x)≔notanumber∥sum(y)≔∥", "AGGREGATE|h|∥∥∥∥", "AGGREGATE|h|a∥1∥k≔a∥s≔n/a∥count(x)≔1∥y≔x∥", "AGGREGATE|h|b∥2∥k≔b∥s≔7∥count(x)≔2∥max(y)≔1e+06∥", "AGGREGATE|h|c∥1∥k≔c∥count(x)≔1∥", ".syn close connection", ".", ".unknown",
 		"REMOTE|h|100|1|f|text with € and \xff bytes", "REMOTE|h|100|1|f|a\nb", "plain text\n", "\n\n", "REMOTE|h|100|1|f|GET / HTTP/1.1\r\n", "SERVER|h|WARN|progress 50%\r", "plain\r\n", "CLIENT|h|ERROR|x\r\r\n",
 	}
 	var small []string
 	c10Seq(toks, 1, "", func(m string) { small = append(small, m) })
 	second := append(append([]string{}, recs...), small...)
-	for _, h := range []string{"client", "mapr", "health"} {
+	for _, h := range []string{"client", "mapr", "health", "mapr-orderby-field", "mapr-limit"} {
 		for _, a := range recs {
+			if strings.HasPrefix(h, "mapr-") && !strings.HasPrefix(a, "AGGREGATE") {
+				continue
+			}
 			for _, b := range second {
 				out = append(out, c16Case{Handler: h, Stream: a + c16Delim + b + c16Delim})
 			}
@@ -322,7 +344,7 @@ func init() {
 		Level: "exploration",
 		Rule: "server byte streams enumerated exhaustively: every message of <=4 (quick) / <=5 (thorough) tokens over a 22-token alphabet (incl. CR and CRLF) (record words, '|', '.', the hidden close message, numbers, severities, " +
 			"newline, the 0xAC message delimiter, the aggregate delimiters, an escape sequence), 30 well-formed/nearly well-formed records followed by every record or token, 5 records of 32-70 KB (alone, followed by a short record, split at the transport boundary), each record split across two Write calls " +
-			"at every byte; each stream is fed to the real ClientHandler, MaprHandler and HealthHandler twice (colours off/on) under the controlled scheduler; oracle: no panic in any goroutine and " +
+			"at every byte; each stream is fed to the real ClientHandler, MaprHandler (three queries, incl. order by a plain field and limit; the result report is produced afterwards) and HealthHandler twice (colours off/on) under the controlled scheduler; oracle: no panic in any goroutine and " +
 			"strip(coloured) == strip(uncoloured) where strip removes SGR escape sequences (applied to both sides); non-trivial = the stream makes the client print something; " +
 			"plus, under ALL schedules within two deviations: a stream with the hidden close message written to each handler while one or two other goroutines shut the handler down and a third reads its commands (the tear-down of a connection), and AGGREGATE messages of two servers arriving while the reporter reads the shared result set: no panic, no deadlock, every message counted once",
 		Assumptions: []string{"output goes through the real stdout logger into a virtual stdout; canonical schedule per stream (all schedules for the tear-down scenarios)"},
